@@ -7,6 +7,11 @@
 /* ------------------------------------------------------------------ exceptions */
 void* vf_exc; const struct vf_typeinfo* vf_exc_ti; int vf_exc_caughtall;
 static void* vf_caught[4]; static const struct vf_typeinfo* vf_caught_ti[4]; static int vf_ncaught;
+/* exceptions taken out of flight by a landing pad (cleanup code / handler selection in progress) */
+static void* vf_stash[6]; static const struct vf_typeinfo* vf_stash_ti[6]; static int vf_nstash;
+void vf_lp_enter(void) { VF_CHECK(vf_nstash < 6, "model: landing pad nesting depth"); if (vf_nstash < 6) { vf_stash[vf_nstash] = vf_exc; vf_stash_ti[vf_nstash] = vf_exc_ti; vf_nstash++; } vf_exc = 0; }
+const struct vf_typeinfo* vf_lp_ti(void) { return vf_nstash > 0 ? vf_stash_ti[vf_nstash - 1] : 0; }
+void vf_lp_resume(void) { VF_CHECK(vf_exc == 0, "exception thrown out of cleanup code while another is in flight (std::terminate)"); if (vf_nstash > 0) { vf_nstash--; vf_exc = vf_stash[vf_nstash]; vf_exc_ti = vf_stash_ti[vf_nstash]; } }
 int vf_bound_hit;
 int vf_ti_is_a(const struct vf_typeinfo* t, const struct vf_typeinfo* target) { for (int i = 0; i < 6 && t; i++, t = t->base) if (t == target) return 1; return 0; }
 void vf_unreachable(void) { VF_FAIL("UB: llvm unreachable executed"); }
@@ -21,11 +26,12 @@ void vf_run_harness(void (*f)(void)) { f(); }
 uint8_t* vfx___cxa_allocate_exception(uint64_t n) { return malloc(n); }
 void vfx___cxa_free_exception(uint8_t* p) { free(p); }
 void vfx___cxa_throw(uint8_t* o, uint8_t* ti, uint8_t* d) { vf_exc = o; vf_exc_ti = (const struct vf_typeinfo*)ti; }
-uint8_t* vfx___cxa_begin_catch(uint8_t* o) { VF_CHECK(vf_ncaught < 4, "model: catch nesting depth"); vf_caught[vf_ncaught] = vf_exc; vf_caught_ti[vf_ncaught] = vf_exc_ti; vf_ncaught++; vf_exc = 0; return o; }
+uint8_t* vfx___cxa_begin_catch(uint8_t* o) { VF_CHECK(vf_ncaught < 4, "model: catch nesting depth"); VF_CHECK(vf_nstash > 0, "model: begin_catch without a stashed exception"); if (vf_nstash > 0) vf_nstash--; vf_caught[vf_ncaught] = vf_stash[vf_nstash]; vf_caught_ti[vf_ncaught] = vf_stash_ti[vf_nstash]; vf_ncaught++; return o; }
 void vfx___cxa_end_catch(void) { if (vf_ncaught > 0) vf_ncaught--; }
 void vfx___cxa_rethrow(void) { vf_exc = vf_caught[vf_ncaught - 1]; vf_exc_ti = vf_caught_ti[vf_ncaught - 1]; }
 void vfx__ZSt9terminatev(void) { VF_FAIL("std::terminate called"); }
 void vfx___cxa_pure_virtual(void) { VF_FAIL("pure virtual called"); }
+void vfx__Z13__OCHECK_FAILPKcS0_iS0_(uint8_t* expr, uint8_t* file, uint32_t line, uint8_t* func) { (void)expr; (void)file; (void)line; (void)func; VF_FAIL("OCHECK failed: oomd aborts"); }
 uint32_t vfx___cxa_guard_acquire(uint64_t* g) { return *(uint8_t*)g == 0; }
 void vfx___cxa_guard_release(uint64_t* g) { *(uint8_t*)g = 1; }
 void vfx___cxa_guard_abort(uint64_t* g) {}
